@@ -103,7 +103,9 @@ func calcDewPoint(temperature, humidity float64) float64 {
 	ea = calcVaporPressure(temperature) * humidity / 100 // actual vapour pressure
 	if ea > 0 {
 		Func := math.Log(ea / 0.6108)
-		return 237.3 * Func / (17.27 - Func)
+		// The Magnus inversion of the Goff-Gratch pressure can overshoot the
+		// dry bulb slightly near saturation; the dew point cannot exceed it
+		return math.Min(temperature, 237.3*Func/(17.27-Func))
 	}
 	return math.NaN()
 }
